@@ -7,7 +7,10 @@
 unsigned g_nr_r;
 /* abstraction of the DD list: g_nr_used[r] != 0 iff some DD with tag != DFTAG_NULL has ref r
    (what HTIfind_dd(file, DFTAG_WILDCARD, r, NULL, DF_FORWARD) decides) */
-unsigned char g_nr_used[65536];
+#ifndef H4V_NR_N
+#define H4V_NR_N 65536
+#endif
+unsigned char g_nr_used[H4V_NR_N];
 /* Hnewref's search loop: every ref below the loop counter is in use */
 #define H4V_HNEWREF_INV(i) ((g_nr_r >= 1 && g_nr_r < (i)) ==> g_nr_used[g_nr_r] != 0)
 #endif
